@@ -350,4 +350,61 @@ def w_model(ctx, rng, i):
                    sample={"backing": backing, "n": n, "d": d, "centred": centre, "history": events} if i < 6 else None)
 
 
-WORKLOADS = [Workload("model", w_model, quick=1000, thorough=40000)]
+def w_alt_constructors(ctx, rng, i):
+    """The alternative constructors (from a covariance / precision matrix, from components) give the same model."""
+    from menpo.model import PCAVectorModel, PCAModel
+    import menpo.shape as ms
+    LEDGER.clear()
+    d = int(rng.integers(3, 12))
+    n = d + int(rng.integers(3, 15))
+    # mild spectrum: pcacov's documented cut is 1e-5 of the largest eigenvalue
+    s_ = 10.0 * (10.0 ** rng.uniform(-1.5, -0.3)) ** (np.arange(d) / max(1, d - 1)) * rng.uniform(0.97, 1.03, d)
+    u, _ = np.linalg.qr(rng.normal(size=(n, n)))
+    ones = np.ones((n, 1)) / np.sqrt(n)
+    q, _ = np.linalg.qr(np.hstack([ones, rng.normal(size=(n, n - 1))]))
+    v, _ = np.linalg.qr(rng.normal(size=(d, d)))
+    X = (q[:, 1:d + 1] * s_) @ v.T + rng.normal(size=d) * 2
+    m, lam, V = reference(X, True)
+    C = np.cov(X, rowvar=False)
+    kind = i % 4
+    obj = bool((i // 4) % 2) and d % 2 == 0
+    mean_arg = ms.PointCloud(m.reshape(-1, 2)) if obj else m
+    K = PCAModel if obj else PCAVectorModel
+    if kind == 0:
+        model = K.init_from_covariance_matrix(C, mean_arg, n_samples=n, centred=True)
+    elif kind == 1:
+        model = K.init_from_covariance_matrix(np.linalg.inv(C), mean_arg, n_samples=n, centred=True, is_inverse=True)
+    elif kind == 2:
+        base = PCAVectorModel(X.copy())
+        model = K.init_from_components(base.components.copy(), base.eigenvalues.copy(), mean_arg, n_samples=n, centred=True)
+    else:
+        k = int(rng.integers(1, d))
+        model = K.init_from_covariance_matrix(C, mean_arg, n_samples=n, centred=True, max_n_components=k)
+        lam, V = lam[:k], V[:k]
+    cls = type(model).__name__
+    ctx.tap("svd_reference", "calls"); ctx.tap("svd_reference", "checked")
+    if model.n_components != len(lam):
+        ctx.fail("number_of_components_differs_from_rank", cls=cls, mech="alt_ctor_%d" % kind, got=int(model.n_components), expected=int(len(lam)))
+    else:
+        if np.abs(model._eigenvalues - lam).max() > 1e-7 * lam[0]:
+            ctx.fail("eigenvalues_are_not_the_sample_variances_along_the_components", cls=cls, mech="alt_ctor_%d" % kind)
+        if np.abs(model._components.T @ model._components - V.T @ V).max() > 1e-6:
+            ctx.fail("components_do_not_span_the_principal_directions", cls=cls, mech="alt_ctor_%d" % kind)
+    if np.abs(model._mean - m).max() > 1e-9 * max(1.0, np.abs(m).max()):
+        ctx.fail("model_mean_is_not_the_sample_mean", cls=cls, mech="alt_ctor_%d" % kind)
+    if model.n_samples != n:
+        ctx.fail("n_samples_wrong", cls=cls, mech="alt_ctor")
+    # the same life as any other model: the invariant and the projection taps keep judging
+    for _ in range(4):
+        if model.n_components > 1 and rng.random() < 0.6:
+            model.n_active_components = int(rng.integers(1, model.n_components + 1))
+        if model.n_components > 1 and rng.random() < 0.3:
+            model.trim_components(int(rng.integers(1, model.n_components + 1)))
+        w = rng.normal(size=model.n_active_components)
+        x = rng.normal(size=d) * 3
+        PCAVectorModel.instance(model, w); PCAVectorModel.reconstruct(model, x); PCAVectorModel.project_out(model, x)
+        model.variance_ratio(); model.noise_variance()
+    ctx.count_case(("alt_ctor", kind, obj), nontrivial=True, sample={"constructor": ["covariance", "precision", "components", "covariance+max_n"][kind], "object_backed": obj} if i < 4 else None)
+
+
+WORKLOADS = [Workload("model", w_model, quick=1000, thorough=40000), Workload("alt_constructors", w_alt_constructors, quick=320, thorough=8000)]
